@@ -539,6 +539,49 @@ pub fn run_c06(ctx: &Ctx) -> Report {
         rep.counters.class("all 16-bit integers (direct)".into());
     }
 
+    // ---- values the text encoder may refuse (not a calendar date, negative TIME): a refusal is
+    //      fine, an accepted write must still decode to exactly what was written
+    let n = if ctx.miri { 2 } else { ctx.n(500, 20_000) };
+    let r = par_cases(ctx, "C06", "may", n, |rng, i, rep| {
+        let v = match rng.below(3) {
+            0 => V::Myc(MV::Date(2021, *rng.pick(&[0u8, 2, 13]), *rng.pick(&[0u8, 30, 31, 32]), *rng.pick(&[0u8, 24, 25]), *rng.pick(&[0u8, 60]), *rng.pick(&[0u8, 61]), *rng.pick(&[0u32, 1_000_000]))),
+            1 => V::Myc(MV::Time(true, rng.below(30) as u32, rng.below(24) as u8, rng.below(60) as u8, rng.below(60) as u8, 0)),
+            _ => V::Myc(gen_myc(rng)),
+        };
+        let cols = vec![simple_col("c", ColumnType::MYSQL_TYPE_VAR_STRING)];
+        let ops = vec![QOp::Start(0), QOp::Col(Cell { v: v.clone(), form: if rng.bool() { Form::Val } else { Form::Ref } }), QOp::EndRow, QOp::Finish];
+        let obs = run_case(&Case::new(vec![Cmd::query(b"q")], vec![Script::Q(QProg { colsets: vec![cols], ops, on_err: OnErr::Forget })]));
+        rep.evaluations += 1;
+        if harness_panic(&obs, rep) {
+            return;
+        }
+        let d = || J::obj().set("value", show_v(&v)).set("outcome", obs.outcome.describe());
+        if i == 0 {
+            rep.sample(d());
+        }
+        let accepted = obs.log.cbs.iter().any(|c| c.results.iter().any(|r| r.op == "col" && r.err.is_none()));
+        rep.counters.class(format!("may: {} {}", vname(&v), if accepted { "accepted" } else { "refused" }));
+        if !accepted {
+            rep.counters.inc("may_values_refused");
+            return;
+        }
+        if let Ok((_, _, dec)) = decode_output(&obs) {
+            if let Some(Resp::Parts(parts)) = dec.resps.get(2) {
+                if let Some(Part::Rows { rows, .. }) = parts.first() {
+                    if let Some(Ok(cells)) = rows.first().map(|r| wire::decode_text_row(r, 1)) {
+                        rep.counters.inc("may_values_accepted_and_compared");
+                        if !text_cell_matches(&cells[0], &sem_of(&v)) {
+                            rep.violations.push(viol("C06", format!("C06 accepted-but-altered {}", vname(&v)), format!("{} was accepted and a client decodes {:?}", show_v(&v), cells[0].as_ref().map(|c| show(c))), d()));
+                        }
+                        return;
+                    }
+                }
+            }
+        }
+        rep.violations.push(viol("C06", format!("C06 accepted-but-undecodable {}", vname(&v)), format!("{} was accepted but the row does not decode (outcome {})", show_v(&v), obs.outcome.describe()), d()));
+    });
+    rep.merge(r);
+
     // ---- one cell beyond 16 MiB (thorough): framing is C04's concern
     if ctx.thorough && !ctx.miri {
         let r = par_cases(ctx, "C06", "big", 1, |_rng, _i, rep| {
@@ -666,6 +709,37 @@ fn gen_like(rng: &mut Rng, proto: &V, big: bool) -> V {
 
 /// A cross-kind pair that must be refused.
 fn gen_cross(rng: &mut Rng) -> (ColumnType, V, &'static str) {
+    const NON_INT: [ColumnType; 9] = [
+        ColumnType::MYSQL_TYPE_BLOB,
+        ColumnType::MYSQL_TYPE_VAR_STRING,
+        ColumnType::MYSQL_TYPE_DATE,
+        ColumnType::MYSQL_TYPE_DATETIME,
+        ColumnType::MYSQL_TYPE_TIME,
+        ColumnType::MYSQL_TYPE_DOUBLE,
+        ColumnType::MYSQL_TYPE_FLOAT,
+        ColumnType::MYSQL_TYPE_JSON,
+        ColumnType::MYSQL_TYPE_NEWDECIMAL,
+    ];
+    const NON_FLOAT: [ColumnType; 7] = [ColumnType::MYSQL_TYPE_BLOB, ColumnType::MYSQL_TYPE_LONG, ColumnType::MYSQL_TYPE_LONGLONG, ColumnType::MYSQL_TYPE_TINY, ColumnType::MYSQL_TYPE_DATE, ColumnType::MYSQL_TYPE_TIME, ColumnType::MYSQL_TYPE_VAR_STRING];
+    if rng.chance(1, 3) {
+        // every Rust integer type into every kind of non-integer column
+        let v = match rng.below(10) {
+            0 => V::I8(-3),
+            1 => V::U8(3),
+            2 => V::I16(-300),
+            3 => V::U16(300),
+            4 => V::I32(-70000),
+            5 => V::U32(70000),
+            6 => V::I64(-5_000_000_000),
+            7 => V::U64(5_000_000_000),
+            8 => V::Isize(-9),
+            _ => V::Usize(9),
+        };
+        return (*rng.pick(&NON_INT), v, "integer -> non-integer column");
+    }
+    if rng.chance(1, 5) {
+        return (*rng.pick(&NON_FLOAT), if rng.bool() { V::F32(1.25) } else { V::F64(-2.5) }, "float -> non-float column");
+    }
     match rng.below(12) {
         0 => (ColumnType::MYSQL_TYPE_LONG, V::Str("12".into()), "string -> integer column"),
         1 => (ColumnType::MYSQL_TYPE_LONGLONG, V::Bytes(b"1".to_vec()), "bytes -> integer column"),
@@ -927,7 +1001,80 @@ pub fn run_c07(ctx: &Ctx) -> Report {
         }
     });
     rep.merge(r);
+
+    // ---- "may" pairs: generic values (Value::Date / Value::Time / Value::Int / Value::UInt, also
+    //      invalid dates and negative times) into any temporal or integer column: the write may be
+    //      refused, but an accepted write must decode to exactly the value written
+    let n = if ctx.miri { 2 } else { ctx.n(2000, 60_000) };
+    let r = par_cases(ctx, "C07", "may", n, |rng, i, rep| {
+        let e = ColumnFlags::empty();
+        let u = ColumnFlags::UNSIGNED_FLAG;
+        let (ct, fl, v): (ColumnType, ColumnFlags, V) = match rng.below(8) {
+            0 | 1 => {
+                let d = gen_datetime(rng);
+                let m = MV::Date(d.year() as u16, d.month() as u8, d.day() as u8, d.hour() as u8, d.minute() as u8, d.second() as u8, d.nanosecond() / 1000);
+                (*rng.pick(&[ColumnType::MYSQL_TYPE_DATETIME, ColumnType::MYSQL_TYPE_TIMESTAMP, ColumnType::MYSQL_TYPE_DATE]), e, V::Myc(m))
+            }
+            2 => {
+                // not a calendar date: must be refused or arrive exactly, never as another date
+                let m = MV::Date(2021, *rng.pick(&[0u8, 2, 13]), *rng.pick(&[0u8, 30, 31, 32]), 25, 61, 61, 0);
+                (ColumnType::MYSQL_TYPE_DATETIME, e, V::Myc(m))
+            }
+            3 | 4 => {
+                let d = gen_dur(rng);
+                let s = d.as_secs() % (35 * 86_400);
+                let m = MV::Time(rng.chance(1, 6), (s / 86_400) as u32, (s % 86_400 / 3600) as u8, (s % 3600 / 60) as u8, (s % 60) as u8, d.subsec_micros());
+                (ColumnType::MYSQL_TYPE_TIME, e, V::Myc(m))
+            }
+            5 => {
+                let ci = rng.usize(6);
+                let t = [ColumnType::MYSQL_TYPE_TINY, ColumnType::MYSQL_TYPE_SHORT, ColumnType::MYSQL_TYPE_YEAR, ColumnType::MYSQL_TYPE_INT24, ColumnType::MYSQL_TYPE_LONG, ColumnType::MYSQL_TYPE_LONGLONG][ci];
+                (t, if rng.bool() { e } else { u }, V::Myc(MV::Int(edge_int(rng, i64::MIN as i128, i64::MAX as i128) as i64)))
+            }
+            6 => (ColumnType::MYSQL_TYPE_LONGLONG, if rng.bool() { e } else { u }, V::Myc(MV::UInt(edge_int(rng, 0, u64::MAX as i128) as u64))),
+            _ => (ColumnType::MYSQL_TYPE_DOUBLE, e, V::Myc(MV::Float(gen_f32(rng)))),
+        };
+        let col = Column { table: "t".into(), column: "c".into(), coltype: ct, colflags: fl };
+        let cell = Cell { v: v.clone(), form: if rng.bool() { Form::Val } else { Form::Ref } };
+        let ops = vec![QOp::Start(0), QOp::Col(cell), QOp::EndRow, QOp::Finish];
+        let cmds = vec![Cmd::prepare(b"p"), Cmd::execute(1, &[], false)];
+        let scripts = vec![Script::PrepOk { id: 1, params: vec![], cols: vec![col.clone()] }, Script::Q(QProg { colsets: vec![vec![col.clone()]], ops, on_err: OnErr::Forget })];
+        let obs = run_case(&Case::new(cmds, scripts));
+        rep.evaluations += 1;
+        if harness_panic(&obs, rep) {
+            return;
+        }
+        let d = || J::obj().set("value", show_v(&v)).set("column", format!("{:?} flags 0x{:x}", ct, fl.bits())).set("outcome", obs.outcome.describe());
+        if i == 0 {
+            rep.sample(d());
+        }
+        let accepted = obs.log.cbs.iter().any(|c| c.results.iter().any(|r| r.op == "col" && r.err.is_none()));
+        rep.counters.class(format!("may: {} -> {:?} {}", vname(&v), ct, if accepted { "accepted" } else { "refused" }));
+        if !accepted {
+            // a refusal may be an Err or a loud assert/expect; both are refusals, neither alters data
+            rep.counters.inc("may_pairs_refused");
+            return;
+        }
+        if let Ok((_, _, dec)) = decode_output(&obs) {
+            if let Some(Resp::Parts(parts)) = dec.resps.get(3) {
+                if let Some(Part::Rows { rows, .. }) = parts.first() {
+                    if let Some(Ok(vals)) = rows.first().map(|r| wire::decode_bin_row(r, &[(ct as u8, fl.bits())])) {
+                        rep.counters.inc("may_pairs_accepted_and_compared");
+                        if !bin_matches(&vals[0], &sem_of(&v), ct as u8) {
+                            rep.violations.push(viol("C07", format!("C07 accepted-but-altered {} -> {:?}", vname(&v), ct), format!("{} was accepted for a {:?} column and a client decodes {:?}", show_v(&v), ct, vals[0]), d()));
+                        }
+                        return;
+                    }
+                }
+            }
+        }
+        if !obs.outcome.is_err() && !matches!(obs.outcome, Outcome::Panic { .. }) {
+            rep.violations.push(viol("C07", format!("C07 accepted-but-undecodable {} -> {:?}", vname(&v), ct), format!("{} was accepted for a {:?} column but the row does not decode", show_v(&v), ct), d()));
+        }
+    });
+    rep.merge(r);
     if ctx.strict() {
+        rep.require("may_pairs_accepted_and_compared", 100);
         rep.require("cells_compared", 10_000);
         rep.require("null_cells_compared", 1000);
         rep.require("refusals_observed", 100);
